@@ -35,13 +35,15 @@ class C13(DevProp):
     fail_term = "c13_failures k"
     mis_term = "c13_mismatch k"
     nontrivial_term = "c13_has_trigger k"
+    soak = True             # single-case monitor and view only (the twin comparison stays in the normal stage)
+    in_soak = False
     monitor_name = ("C13 monitor (a triggered panic press emits exactly CC 123 + 128 Note Offs on the observed current channel and changes no visible "
                     "state; twin histories: inserting panic press+release changes no later output, the clean-up, or the final state)")
     correspondence_name = "C13 view (bytes of the panic steps)"
     rule = ("base alternating histories (all modes, channels 1-16 via defaults and channel walks, keys held or not); the panic key's press+release is "
             "inserted at every position where no up/down pair is held (quick: sampled positions), in 40 % of the configurations a second key mapped to panic is "
             "pressed/held by the base history (the case C13_transparent_general adds); each variant and the panic-free twin are run on the "
-            "real device and compared; non-trivial = distinct variants in which the panic triggered")
+            "real device and compared; plus histories with several panics around an up/down chord (pair reset) of every kind and press order; non-trivial = distinct variants in which the panic triggered")
 
     def perturb(self, case, res):
         # falsify: one Note Off missing from the panic burst
@@ -56,15 +58,7 @@ class C13(DevProp):
         cases = []
         n_base = 45 if tier == "quick" else 600
         for i in range(n_base):
-            cfg = devgen.gen_config(rng, with_exit=False, actions=[a for a in devgen.ACTIONS if a != "panic" and rng.random() < 0.8])
-            cfg["channel"] = rng.randint(1, 16)
-            two = rng.random() < 0.4
-            if two:
-                cfg["actions"].append({"code": PANIC_KEY2, "action": "panic"})
-            h = devgen.gen_history(rng, cfg, rng.randint(8, 40), p_action=0.4 if two else 0.3)
-            cfg["actions"].append({"code": PANIC_KEY, "action": "panic"})   # never pressed by the base history (alternation)
-            if rng.random() < 0.5:
-                h = h + devgen.release_all(h)
+            cfg, h = self.base_history(rng)
             bi = len(cases)
             cases.append({"cfg": cfg, "abs": [], "events": h, "tag": "base"})
             blocked = pair_held_positions(cfg, h)
@@ -75,7 +69,51 @@ class C13(DevProp):
                 ai = len(cases)
                 cases.append({"cfg": cfg, "abs": [], "events": h[:n] + [k(PANIC_KEY, 1), k(PANIC_KEY, 0)] + h[n:], "tag": "panic-inserted"})
                 self.twins.append((ai, bi, n))
+        # several panics in one history, around an up/down chord (pair reset) of every kind and order: the burst must follow the
+        # CURRENT channel after every kind of state change, also the ones that bypass the single-step actions
+        for i in range(24 if tier == "quick" else 240):
+            cfg = devgen.gen_config(rng, with_exit=False, actions=[a for a in devgen.ACTIONS if a != "panic"])
+            cfg["channel"] = rng.randint(1, 16)
+            cfg["actions"].append({"code": PANIC_KEY, "action": "panic"})
+            code = {a["action"]: a["code"] for a in cfg["actions"]}
+            tap = [k(PANIC_KEY, 1), k(PANIC_KEY, 0)]
+            up, down = PAIRS[i % 4]
+            first, second = (up, down) if (i // 4) % 2 == 0 else (down, up)
+            h = devgen.gen_history(rng, cfg, rng.randint(0, 10), p_action=0.2, action_discipline=True)
+            h += devgen.release_all(h)
+            steps = rng.randint(1, 3)
+            for _ in range(steps - 1):                      # walk away from the neutral value first
+                h += [k(code[first], 1), k(code[first], 0)]
+            h += [k(code[first], 1)] + (tap if rng.random() < 0.7 else [])          # panic while the first key of the pair is held
+            h += [k(code[second], 1)]                                               # chord: reset
+            rel = [k(code[first], 0), k(code[second], 0)]
+            if rng.random() < 0.5:
+                rel.reverse()
+            h += [rel[0]] + (tap if rng.random() < 0.6 else []) + [rel[1]] + tap    # panic with one key still down / after both are up
+            h += devgen.gen_history(rng, cfg, rng.randint(0, 8), p_action=0.2, action_discipline=True)
+            cases.append({"cfg": cfg, "abs": [], "events": h, "tag": "panic-around-chord"})
         return cases
+
+    def base_history(self, rng):
+        cfg = devgen.gen_config(rng, with_exit=False, actions=[a for a in devgen.ACTIONS if a != "panic" and rng.random() < 0.8])
+        cfg["channel"] = rng.randint(1, 16)
+        two = rng.random() < 0.4
+        if two:
+            cfg["actions"].append({"code": PANIC_KEY2, "action": "panic"})
+        h = devgen.gen_history(rng, cfg, rng.randint(8, 40), p_action=0.4 if two else 0.3)
+        cfg["actions"].append({"code": PANIC_KEY, "action": "panic"})   # never pressed by the base history (alternation)
+        if rng.random() < 0.5:
+            h = h + devgen.release_all(h)
+        return cfg, h
+
+    def soak_case(self, rng):
+        """stream of the extracted-model soak: a base history with the panic key's press+release inserted at one random position
+        (any position: the single-case monitor decides from the history whether the press triggers), 1 in 5 the base history itself"""
+        cfg, h = self.base_history(rng)
+        if rng.random() < 0.2:
+            return {"cfg": cfg, "abs": [], "events": h, "tag": "base"}
+        n = rng.randint(0, len(h))
+        return {"cfg": cfg, "abs": [], "events": h[:n] + [k(PANIC_KEY, 1), k(PANIC_KEY, 0)] + h[n:], "tag": "panic-inserted"}
 
     def run(self, run_, cases=None, replaying=False):
         if cases is not None:
@@ -118,7 +156,8 @@ class C13(DevProp):
 
     def run_impl(self, binary, cases):
         results, err = DevProp.run_impl(self, binary, cases)
-        self._cases, self._results = cases, results
+        if not self.in_soak:   # the twin stage compares the cases of the normal stage
+            self._cases, self._results = cases, results
         return results, err
 
 
